@@ -43,8 +43,11 @@ def _limit(shape, cap=40000):
 
 @st.composite
 def center_in(draw, shape):
-    if draw(st.integers(0, 3)) == 0:
+    k = draw(st.integers(0, 11))
+    if k <= 2:
         return None
+    if k == 3:  # a corner of the box, the origin corner included
+        return [draw(st.sampled_from([0, n - 1])) for n in shape] if draw(st.booleans()) else [0, 0, 0]
     c = []
     for n in shape:
         c.append(draw(st.one_of(st.integers(0, n - 1), st.sampled_from([0, n - 1, n // 2]))))
@@ -277,8 +280,18 @@ def run_shape(case, out):
     out.nontrivial = (noncubic and offcentre) or clipped
     if clipped:
         out.label("clipped_by_box")
+    if c_in is not None and list(c_in) == [0, 0, 0]:
+        out.label("centre_at_origin_corner")
     if not ok:
         return
+    # the same request again (and, in between, another one in the same box) must give the same mask: no state between calls
+    if kind in ("sphere", "cylinder") and s == 0:
+        fn2 = cryomask.spherical_mask if kind == "sphere" else cryomask.cylindrical_mask
+        other_c = [min(shape[a] - 1, c[a] + 1 + a) for a in range(3)]
+        call(out, f"{kind}_mask(other centre)", lambda: fn2(list(shape), center=other_c, radius=2))
+        ok2, m_again = call(out, f"{kind}_mask(again)", lambda: fn2(list(shape), gaussian=s, gaussian_outwards=outwards, **kw))
+        if ok2:
+            out.check(np.array_equal(np.asarray(m_again), np.asarray(m)), f"{kind}:result_depends_on_earlier_calls", "")
     m = np.asarray(m)
     if not out.check(m.shape == shape, f"{kind}:shape", f"{m.shape} vs {shape}"):
         return
@@ -365,7 +378,9 @@ def run_algebra(case, out):
         inputs[0] = "m0.mrc"
         out.label("via_file")
     fn = getattr(cryomask, op)
+    n_inputs, ids_inputs = len(inputs), [id(x) for x in inputs]
     ok, r = call(out, op, lambda: fn(inputs))
+    out.check(len(inputs) == n_inputs and [id(x) for x in inputs] == ids_inputs, f"{op}:input_list_modified", f"{len(inputs)} of {n_inputs} masks left in the caller's list")
     for a, b in zip(masks, keep):
         out.check(a.dtype == b.dtype and np.array_equal(a, b), f"{op}:input_modified", f"dtype {b.dtype}")
     if not ok:
